@@ -117,6 +117,12 @@ class Sched:
         except Killed:
             pass
 
+    def interpreter_exit(self):
+        """the main thread returns: the interpreter waits for the non-daemon threads and then exits, which kills daemon
+        threads wherever they are.  Returns the names of the threads killed while still working."""
+        self.yield_(lambda: all(t.finished for t in self.threads if t.started and not t.__dict__.get("user_daemon")), what="interpreter exit")
+        return [t.name for t in self.threads if t.started and not t.finished]
+
     def cleanup(self):
         if self.abort is None:
             self.abort = Killed()
@@ -145,8 +151,14 @@ class _Main:
 class CoopThread(threading.Thread):
     def __init__(self, *a, **k):
         super().__init__(*a, **k)
-        self.daemon = True
         s = Sched.cur
+        # what the code under test asked for (inherited from the creating thread like threading does); the real thread
+        # underneath is always a daemon so that an aborted run cannot keep the checker alive
+        ud = k.get("daemon")
+        if ud is None:
+            ud = bool(s.current.__dict__.get("user_daemon", False)) if s is not None else False
+        self.__dict__["user_daemon"] = bool(ud)
+        self._daemonic = True
         self._s = s
         s.threads.append(self)
         self.go = threading.Semaphore(0)
@@ -159,6 +171,22 @@ class CoopThread(threading.Thread):
         self.name = "%s#%d" % (type(self).__name__, len(s.threads))
         self._user_run = self.run
         self.run = self._wrapped
+
+    @property
+    def daemon(self):
+        return self.__dict__.get("user_daemon", False)
+
+    @daemon.setter
+    def daemon(self, v):
+        if self.__dict__.get("started"):
+            raise RuntimeError("cannot set daemon status of active thread")
+        self.__dict__["user_daemon"] = bool(v)
+
+    def isDaemon(self):
+        return self.daemon
+
+    def setDaemon(self, v):
+        self.daemon = v
 
     def _wrapped(self):
         self.go.acquire()
